@@ -20,7 +20,7 @@ What is proved here
   `optimize_idempotent_not_full_object` (object→Any leaves `Union[Any, …]` — known finding
   c11-union-any-after-adjust); `optimize_idempotent_partial` and the idempotent single visitors.
 -/
-import PytypeModel.Proofs.OptimizeExact
+import PytypeModel.Proofs.OptimizeMutable
 
 namespace PytypeModel.Props.C11
 open PytypeModel.Pytd
@@ -88,6 +88,22 @@ theorem optimize_widens (S : Sem) (o : Opts) (deps abcs : Hier) (u : TUnit)
     (hg : o.hasDeps = true → ∀ t, t ∈ (stageA u).tys → suwsOK (pipelineHier o deps abcs u) t = true)
     (hm : o.removeMutable = false) : UnitLe S u (optimize o deps abcs u) :=
   optimize_le o deps abcs u hs ha hk hg hm
+
+/-- `remove_mutable=True` included: `optimize = stageD2 ∘ optimizeBeforeAdjustSelf` (by `rfl`), and the part
+before `visitors.AdjustSelf` — AbsorbMutableParameters, the second CombineContainers, MergeTypeParameters
+(modelled where no enclosing class has type parameters) — only widens. -/
+theorem optimize_widens_before_adjustSelf (S : Sem) (o : Opts) (deps abcs : Hier) (u : TUnit)
+    (hs : HierSound S (pipelineHier o deps abcs u)) (ha : Antisymm S) (hk : UnitKok u)
+    (hg : o.hasDeps = true → ∀ t, t ∈ (stageA u).tys → suwsOK (pipelineHier o deps abcs u) t = true) :
+    optimize o deps abcs u = stageD2 o (optimizeBeforeAdjustSelf o deps abcs u) ∧
+    UnitLe S u (optimizeBeforeAdjustSelf o deps abcs u) :=
+  ⟨rfl, optimizeBeforeAdjustSelf_le o deps abcs u hs ha hk hg⟩
+
+/-- … and `AdjustSelf` touches nothing but a receiver (`self` / `cls`) typed `Any` inside a class,
+which it re-annotates with the class: the one deliberate narrowing of the pipeline. -/
+theorem adjustSelf_only_receiver (c : Ctx) (p : Param) :
+    adjustSelfParam c p = p ∨ (p.ty = .any ∧ (p.name = "self" ∨ p.name = "cls") ∧ c.cls.isSome = true) :=
+  adjustSelfParam_spec c p
 
 /-- Func level: overload sets as unions — every signature is covered by one of the optimised function. -/
 theorem optimize_widens_functions (S : Sem) (o : Opts) (deps abcs : Hier) (u : TUnit)
@@ -380,8 +396,72 @@ example : den boolSem (optimizeTy { hasDeps := true } exH .param exTy)
   rw [e]
   simp [denAny, den_generic, denSlots, boolSem, Val.clsOf, Val.slots]
 
+/-- `def f(x: list[int] | list[bool], y: bool | int) -> tuple[int, str] | tuple[bool, ...]`, a constant, a class -/
+def exUnit : TUnit :=
+  { name := "m",
+    constants := [{ name := "k", ty := .union [.named "builtins.bool", .named "builtins.int", .named "builtins.str"] }],
+    classes := [.mk "K" [] [.named "builtins.int"] [] [{ name := "c", ty := exTy }] [] [] none []],
+    functions := [{ name := "f", sigs := [
+      { params := [{ name := "x", ty := .union [listOf (.named "builtins.int"), listOf (.named "builtins.bool")] },
+                   { name := "y", ty := .union [.named "builtins.bool", .named "builtins.int"] }],
+        ret := .union [.tuple (.named "builtins.tuple") [.named "builtins.int", .named "builtins.str"],
+                       .generic (.named "builtins.tuple") [.named "builtins.bool"]] }] }] }
+
+theorem exUnit_hier : pipelineHier Opts.pytype exH [] exUnit = exH ++ [("K", ["builtins.int"])] := by decide +kernel
+
+def exSem : Sem :=
+  ⟨fun a b => a = b ∨ (a = "builtins.bool" ∧ b = "builtins.int") ∨ (a = "K" ∧ b = "builtins.int"), fun _ _ _ => False⟩
+
+theorem exSem_sound : HierSound exSem (exH ++ [("K", ["builtins.int"])]) := by
+  refine ⟨?_, fun _ => Or.inl rfl, ?_⟩
+  · intro a b hb
+    by_cases h : "builtins.bool" = a
+    · subst h
+      simp [Hier.lookup, exH] at hb
+      exact Or.inr (Or.inl ⟨rfl, hb⟩)
+    · by_cases h2 : "K" = a
+      · subst h2
+        simp [Hier.lookup, exH] at hb
+        exact Or.inr (Or.inr ⟨rfl, hb⟩)
+      · simp [Hier.lookup, exH, h, h2] at hb
+  · intro a b c h1 h2
+    rcases h1 with rfl | ⟨rfl, rfl⟩ | ⟨rfl, rfl⟩
+    · exact h2
+    · rcases h2 with rfl | ⟨h, _⟩ | ⟨h, _⟩
+      · exact Or.inr (Or.inl ⟨rfl, rfl⟩)
+      · exact absurd h (by decide)
+      · exact absurd h (by decide)
+    · rcases h2 with rfl | ⟨h, _⟩ | ⟨h, _⟩
+      · exact Or.inr (Or.inr ⟨rfl, rfl⟩)
+      · exact absurd h (by decide)
+      · exact absurd h (by decide)
+
+theorem exSem_antisymm : Antisymm exSem := by
+  intro a b h1 h2
+  rcases h1 with h | ⟨rfl, rfl⟩ | ⟨rfl, rfl⟩
+  · exact h
+  · rcases h2 with h | ⟨h, _⟩ | ⟨h, _⟩
+    · exact h.symm
+    · exact absurd h (by decide)
+    · exact absurd h (by decide)
+  · rcases h2 with h | ⟨h, _⟩ | ⟨h, _⟩
+    · exact h.symm
+    · exact absurd h (by decide)
+    · exact absurd h (by decide)
+
 theorem unitKok_of_all (u : TUnit) (h : u.all kok = true) : UnitKok u :=
   fun t ht => List.all_eq_true.1 h t ht
+
+/-- all hypotheses of `optimize_widens` hold on `exUnit` with pytype's settings and a dependency hierarchy … -/
+example : UnitLe exSem exUnit (optimize Opts.pytype exH [] exUnit) :=
+  optimize_widens exSem Opts.pytype exH [] exUnit (by rw [exUnit_hier]; exact exSem_sound) exSem_antisymm
+    (unitKok_of_all _ (by decide +kernel))
+    (fun _ => by rw [exUnit_hier]; exact List.all_eq_true.1 (by decide +kernel)) rfl
+
+/-- … and the optimiser does change it (bool is absorbed, lists merged, the tuple degenerated) -/
+example : (optimize Opts.pytype exH [] exUnit).functions.map (fun f => f.sigs.map (fun s => (s.params.map (·.ty), s.ret))) =
+    [[([.generic (.cls "list") [.cls "builtins.int"], .cls "builtins.int"],
+       .generic (.cls "builtins.tuple") [.union [.cls "builtins.int", .cls "builtins.str"]])]] := by decide +kernel
 
 /-- the unit-level hypotheses hold for the idempotence witnesses -/
 example : UnitKok dupWitness := unitKok_of_all _ (by decide +kernel)
